@@ -286,6 +286,68 @@ pub fn run(ctx: &Ctx) -> Report {
             }
         }
         rep.class_n("uci-searches-compared-across-3-engine-processes", list.len() as u64);
+        // a deep search (several hundred thousand cache entries) in three engine processes at
+        // once, one of them frozen for a second in the middle; and the advertised options set
+        // before a medium search: all must be identical
+        {
+            let bench = corp.with_tag_prefix("bench");
+            let fen = corp.fens[bench[0]].clone();
+            let run_many = |preambles: Vec<Vec<&str>>, depth: u32, freeze_first: bool| -> Vec<(String, String)> {
+                let mut engines: Vec<Engine> = vec![];
+                for pre in &preambles {
+                    if let Ok(mut e) = Engine::spawn(&ctx.engine, &[]) {
+                        for l in pre {
+                            e.send(l);
+                        }
+                        e.send(&format!("position fen {fen}"));
+                        e.send(&format!("go depth {depth}"));
+                        engines.push(e);
+                    }
+                }
+                if freeze_first {
+                    if let Some(pid) = engines.first().map(|e| e.pid() as i32) {
+                        std::thread::sleep(Duration::from_millis(1500));
+                        unsafe {
+                            libc::kill(pid, libc::SIGSTOP);
+                        }
+                        std::thread::sleep(Duration::from_millis(1200));
+                        unsafe {
+                            libc::kill(pid, libc::SIGCONT);
+                        }
+                    }
+                }
+                let mut out = vec![];
+                for e in engines.iter_mut() {
+                    let best = e.wait_for(Duration::from_secs(300), |ev| (ev.stream == Stream::Out && ev.line.starts_with("bestmove")) || ev.eof);
+                    let nodes = e.stdout_lines().iter().rev().find(|l| l.line.starts_with("info")).and_then(|l| {
+                        let toks: Vec<&str> = l.line.split_whitespace().collect();
+                        toks.iter().position(|t| *t == "nodes").and_then(|i| toks.get(i + 1)).map(|s| s.to_string())
+                    });
+                    out.push((best.map(|b| b.line).unwrap_or_default(), nodes.unwrap_or_default()));
+                    e.send("quit");
+                }
+                out
+            };
+            let deep = run_many(vec![vec![], vec![], vec![]], ctx.tier.pick(8, 9), true);
+            rep.eval(deep.len() as u64);
+            if deep.len() >= 2 {
+                rep.nontrivial(o::hash_str("deep-search"));
+                rep.class("deep-search(depth 8/9) x3 processes, one frozen 1.2 s");
+                if deep.iter().any(|x| x != &deep[0]) || deep[0].1.is_empty() {
+                    rep.violation(Violation::new("across-processes", "across-processes/deep-search-differs", format!("'position fen {fen}' + a deep 'go depth' answered differently in concurrent engine processes: {deep:?}"), json!({"fen": fen, "depth": 8})));
+                }
+                rep.samples.push(json!({"deep_search": fen, "results": deep}));
+            }
+            let opt = run_many(vec![vec![], vec!["setoption name Hash value 1", "setoption name Threads value 1", "setoption name Move Overhead value 10"], vec!["setoption name Hash value 1"]], 6, false);
+            rep.eval(opt.len() as u64);
+            if opt.len() >= 2 {
+                rep.nontrivial(o::hash_str("options-set"));
+                rep.class("advertised-options-set-before-search x3");
+                if opt.iter().any(|x| x != &opt[0]) || opt[0].1.is_empty() {
+                    rep.violation(Violation::new("across-processes", "across-processes/options-differs", format!("'position fen {fen}' + 'go depth 6' with and without the advertised options set (Hash 1, Threads 1, Move Overhead 10): {opt:?}"), json!({"fen": fen, "depth": 6})));
+                }
+            }
+        }
         // a search that is the first and only one of its process must equal the same search
         // done as the n-th of a long-lived process (state leaking between searches)
         if let (Some(t0), Some(b)) = (tables.first(), base.as_ref().and_then(|b| b.as_array())) {
@@ -369,5 +431,5 @@ pub fn replay(ctx: &Ctx, case: &Value) -> Report {
 }
 
 pub const LEVEL: &str = "exploration";
-pub const RULE: &str = "(position, depth) = the 62 bench FENs at depth 4-5 (quick) / 5-6 (thorough), corpus positions at depth 3-4 and 30/120 positions WITH game history (10-16 plies of weighted play, so remembered repetitions matter), each searched from an emptied cache 3 times per process in different orders with searches of other positions in between, in 4 separate processes running at the same time as 10 busy-loop processes and as the real 'bench' subcommand (x2 quick / x4 thorough, one run frozen for 6 s by SIGSTOP/SIGCONT); the same searches as the only search of a fresh engine process (x3: plain; after ucinewgame with the command loop held 60 ms after spawning the search; after ucinewgame with 200 ms + the search thread held 30 ms) must equal the long-lived processes' results; oracle = equality of (bestmove, root score, node count) across all repetitions and processes, and of the bench node total. Non-trivial = (position, depth) with >= 1000 nodes, plus the bench comparison; distinct by (position, depth).";
+pub const RULE: &str = "(position, depth) = the 62 bench FENs at depth 4-5 (quick) / 5-6 (thorough), corpus positions at depth 3-4 and 30/120 positions WITH game history (10-16 plies of weighted play, so remembered repetitions matter), each searched from an emptied cache 3 times per process in different orders with searches of other positions in between, in 4 separate processes running at the same time as 10 busy-loop processes and as the real 'bench' subcommand (x2 quick / x4 thorough, one run frozen for 6 s by SIGSTOP/SIGCONT); the same searches as the only search of a fresh engine process (x3: plain; after ucinewgame with the command loop held 60 ms after spawning the search; after ucinewgame with 200 ms + the search thread held 30 ms) must equal the long-lived processes' results; one deep search (depth 8 quick / 9 thorough, > 250 000 cache entries) in three concurrent engine processes, one frozen for 1.2 s; a depth-6 search with and without the advertised options set; oracle = equality of (bestmove, root score, node count) across all repetitions and processes, and of the bench node total. Non-trivial = (position, depth) with >= 1000 nodes, plus the bench comparison; distinct by (position, depth).";
 pub const ASSUMPTIONS: &[&str] = &["equality is the whole oracle; nothing is assumed about which move is best", "machine load is produced by the harness itself (10 busy loops + concurrent bench runs on 16 cores)"];
